@@ -611,8 +611,10 @@ class GroupSpecificTerm:
     """
 
     def __init__(self, expr, factor):
-        self.expr = expr
-        self.factor = factor
+        # '|' is distributed over sums, so the same expr/factor objects reach several terms.
+        # Each term needs its own copy because they may end up with different encodings.
+        self.expr = deepcopy(expr)
+        self.factor = deepcopy(factor)
         self.data = None
         self.groups = None
         self.kind = None
